@@ -39,7 +39,7 @@ def grid(lo, hi):
 def lower(draw, v, allow_add=True):
     """a threshold not larger than v (None = absent = infinitely loose)."""
     if v is None:
-        return draw(st.one_of(st.none(), st.sampled_from([0.0, Q, 1.0, 4.0]))) if allow_add else None
+        return draw(st.one_of(st.none(), st.sampled_from([0.0, Q, 1.0, 4.0, 8.0, 64.0, 1e6]))) if allow_add else None
     return draw(st.sampled_from([v, v, v / 2, v - Q if v - Q >= 0 else v, 0.0 if v >= 0 else v, v * 0.75]))
 
 
